@@ -34,6 +34,17 @@ def parseLsts? : List String → Option (List Lst)
     pure (mkLst k ⟨evalPoly a, evalPoly b, evalPoly c, evalPoly d, e⟩ :: more)
   | _ => none
 
+/-- the same, keeping the kind and the channels apart -/
+def parseKinds? : List String → Option (List (Kind × Chan))
+  | [] => some []
+  | k :: a :: b :: c :: d :: e :: rest => do
+    let k ← parseKind? k
+    let a ← parseInts? a; let b ← parseInts? b; let c ← parseInts? c; let d ← parseInts? d
+    let e ← e.toInt?
+    let more ← parseKinds? rest
+    pure ((k, ⟨evalPoly a, evalPoly b, evalPoly c, evalPoly d, e⟩) :: more)
+  | _ => none
+
 def showItem (it : Item) : String :=
   match it.ev with
   | none => s!"{it.t}/-"
@@ -61,7 +72,21 @@ def bisectOp (args : List String) : String :=
     | _, _, _ => "bad-op"
   | _ => "bad-op"
 
+/-- `c10v <events 0|1> <hasMask 0|1> <samples> <A> <B> <C> <D> <user listeners…>` : the stream of
+`TopocentricFrame.visibility`; A–D are the components in the station's frame (elevation, its rate, range rate, mask) -/
+def visOp (args : List String) : String :=
+  match args with
+  | ev :: hm :: s :: a :: b :: c :: d :: rest =>
+    match parseInts? s, parseInts? a, parseInts? b, parseInts? c, parseInts? d, parseKinds? rest with
+    | some samples, some a, some b, some c, some d, some user =>
+      let n := user.length + (if ev == "1" then (Listen.stationKinds (hm == "1")).length else 0)
+      joinWith ";" ((Listen.visibility user ⟨evalPoly a, evalPoly b, evalPoly c, evalPoly d, 0⟩ (hm == "1") (ev == "1")
+        (List.replicate n (some 12345)) samples).map showItem)
+    | _, _, _, _, _, _ => "bad-op"
+  | _ => "bad-op"
+
 def handle : List String → Option String
+  | "c10v" :: args => some (visOp args)
   | "c10" :: args => some (iterOp args)
   | "c10b" :: args => some (bisectOp args)
   | _ => none
